@@ -544,11 +544,53 @@ def build_connection(node):
     return (Series if node["t"] == "S" else Parallel)(items)
 
 
+def inject_empty_series(rng, tree):
+    """An empty Series nested in a connection: the library's own spelling of a short (the default X_2 of Tlm, the keyword 'short').
+    Only the object API can build it (tree['_objects_only'] is set: text routes do not apply)."""
+    nodes = []
+
+    def walk(n):
+        if n["t"] in ("S", "P"):
+            nodes.append(n)
+            for ch in n["c"]:
+                walk(ch)
+    walk(tree)
+    host = nodes[int(rng.integers(0, len(nodes)))]
+    host["c"].insert(int(rng.integers(0, len(host["c"]) + 1)), {"t": "S", "c": []})
+    tree["_objects_only"] = True
+
+
+def build_connection_topdown(node, con=None):
+    """Top-down construction: a connection is handed to its parent while still EMPTY (through the parent's constructor at the top
+    level, through append() below) and filled afterwards - a legitimate order of the documented object API."""
+    from pyimpspec import Series, Parallel
+
+    kids, pending = [], []
+    for c in node["c"]:
+        if c["t"] == "E":
+            kids.append(build_element(c))
+        else:
+            sub = (Series if c["t"] == "S" else Parallel)([])
+            kids.append(sub)
+            pending.append((sub, c))
+    if con is None:
+        con = (Series if node["t"] == "S" else Parallel)(kids)
+    else:
+        for k in kids:
+            con.append(k)
+    for sub, c in pending:
+        build_connection_topdown(c, sub)
+    return con
+
+
 def build_objects(tree, form=None):
-    """Circuit via direct object construction. form: None|'series'|'parallel'|'element'|'list' picks the Circuit(...) overload."""
+    """Circuit via direct object construction. form: None|'series'|'parallel'|'element'|'list'|'topdown' picks the Circuit(...)
+    overload / the construction order."""
     from pyimpspec import Circuit
 
     assert tree["t"] == "S"
+    if form == "topdown":
+        return Circuit(build_connection_topdown(tree))
     if form == "list" and all(c["t"] == "E" for c in tree["c"]) and len(tree["c"]) > 0:
         return Circuit([build_element(c) for c in tree["c"]])
     if form == "element" and len(tree["c"]) == 1 and tree["c"][0]["t"] == "E":
